@@ -161,14 +161,17 @@ def rebound_globals(repo: Repo):
     return out
 
 
-def stale_bindings(repo: Repo, rep, names, why: str):
+def stale_bindings(repo: Repo, rep, names, why: str, strict_rebinders=()):
+    """strict_rebinders: function keys; a copy of a global that one of them re-binds is a
+    VIOLATION (for that property the live value is a necessary condition), any other copy an audit."""
     """No module copies a re-bound module global with `from mod import name`."""
     rid = "R-STALE-BINDING"
     rep.rule(
         rid,
         "a module-level name that is re-bound at run time (`_config.config` in pytest_configure, the compare-only flag, the current state, the problem set) is "
         "never copied into another module with `from <module> import <name>`: the copy keeps the object of import time and silently ignores every later re-binding; "
-        "it is read through the module attribute or an accessor function",
+        "it is read through the module attribute or an accessor function (a copy is reported as UNDECIDED / audit, not as a violation: whether a stale read "
+        "matters depends on where the copy is used)",
     )
     rb = rebound_globals(repo)
     n = 0
@@ -188,7 +191,13 @@ def stale_bindings(repo: Repo, rep, names, why: str):
                             # resolve the module of this import
                             tgt = m.imports.get(a.asname or a.name)
                             if tgt and repo.module_of(tgt[0]) is src:
-                                rep.violation(rid, m, x, f"{m.rel} copies `{name}` out of {rel} with a from-import, but {where[0]} re-binds it at run time: {why}", construct=f"{m.rel}:{name}")
+                                if any(w.startswith(k + ":") for w in where for k in strict_rebinders):
+                                    rep.violation(rid, m, x, f"{m.rel} copies `{name}` out of {rel} with a from-import, but {where[0]} re-binds it at run time: {why}", construct=f"{m.rel}:{name}")
+                                    bad = True
+                                    continue
+                                # a hazard, not by itself a violation of the property (the stale copy may be
+                                # read where it does not matter): no verdict, ask for an audit
+                                rep.undecided(rid, f"{m.rel}:{x.lineno} copies `{name}` out of {rel} with a from-import, but {where[0]} re-binds it at run time ({why}) - audit every read of the copy")
                                 bad = True
         if not bad:
             rep.ok(rid, src, None, f"`{name}` (re-bound in {where[0]}) is only read through its module/accessor", site=f"{PKG_PREFIX}{rel}: global {name}")
